@@ -830,8 +830,15 @@ func genericPools(r *Run, rule string, ctxPoolF *types.Var) {
 	w := r.W
 	isReset := func(c ssa.CallInstruction, v ssa.Value) bool {
 		args := callArgs(c)
-		if len(args) == 0 || args[0] != v {
+		if len(args) == 0 {
 			return false
+		}
+		if args[0] != v {
+			// the reset of a buffer that is a field of the pooled object (je.buf.Reset())
+			fa, isFA := args[0].(*ssa.FieldAddr)
+			if !isFA || fa.X != v {
+				return false
+			}
 		}
 		n := calleeName(c)
 		i := strings.LastIndexByte(n, '.')
@@ -873,14 +880,26 @@ func genericPools(r *Run, rule string, ctxPoolF *types.Var) {
 			for _, v := range vals {
 				// a reset that dominates every other use of v
 				var resets []ssa.Instruction
+				// the uses of v, with the uses of its field addresses in place of the address computations
+				var uses []ssa.Instruction
 				for _, ref := range *v.Referrers() {
+					if fa, isFA := ref.(*ssa.FieldAddr); isFA && fa.X == v {
+						for _, r2 := range *fa.Referrers() {
+							uses = append(uses, r2)
+							if c, ok := r2.(*ssa.Call); ok && isReset(c, v) {
+								resets = append(resets, r2)
+							}
+						}
+						continue
+					}
+					uses = append(uses, ref)
 					if c, ok := ref.(*ssa.Call); ok && isReset(c, v) {
 						resets = append(resets, ref)
 					}
 				}
 				for _, rs := range resets {
 					all := true
-					for _, ref := range *v.Referrers() {
+					for _, ref := range uses {
 						if ref == rs {
 							continue
 						}
